@@ -18,9 +18,9 @@ PROPERTY = "C15"
 LEVEL = "exploration"
 RULE = (
     "create: method{linear,comoving,logspace} x closed x (zmin,zmax,num_bins){4} x unit{8} x scales{single,"
-    "3 overlapping} x rweight/resolution{3} x cosmology{default name, instance, other name, CustomCosmology}; "
+    "3 overlapping} x rweight/resolution{3} x cosmology{default name, instance, other name, CustomCosmology with D_A != D_C/(1+z), closed LambdaCDM instance}; "
     "custom edges; invalid alphabet (non-increasing edges, rmin>=rmax, unknown method/unit/cosmology, "
-    "missing zmin/zmax/edges, length mismatch); modify: every single parameter value and every pair of "
+    "missing zmin/zmax/edges, length mismatch); modify: every single parameter value (incl. the falsy values zmin=0, zmax=0, num_bins=0, rweight=0) and every pair of "
     "parameter values on 8 base configurations vs create(**merged). Non-trivial: non-default cosmology or "
     "non-linear method or a modification that changes the edges/angles. Distinct: canonical JSON."
 )
@@ -40,7 +40,7 @@ UNIT_SCALES = {
 }
 MULTI = ((1.0, 2.0), (1.5, 5.0), (3.0, 10.0))
 RW = ((None, None), (-1.0, 50), (0.5, 3))
-COSMOS = ("Planck15", "inst:Planck15", "WMAP9", "custom")
+COSMOS = ("Planck15", "inst:Planck15", "WMAP9", "custom", "curved")
 CUSTOM_EDGES = [0.1, 0.2, 0.5, 0.9]
 
 
@@ -52,6 +52,9 @@ def cosmo_obj(tag):
         return None
     if tag.startswith("inst:"):
         return getattr(ac, tag[5:])
+    if tag == "curved":
+        # spatially closed model: transverse and line-of-sight comoving distances differ
+        return ac.LambdaCDM(H0=70.0, Om0=0.3, Ode0=0.9)
     if tag == "custom":
         class Toy(CustomCosmology):
             def comoving_distance(self, z):
@@ -60,7 +63,8 @@ def cosmo_obj(tag):
 
             def angular_diameter_distance(self, z):
                 z = np.asarray(z, dtype=float)
-                return self.comoving_distance(z) / (1.0 + z)
+                # deliberately not D_C/(1+z): the configured cosmology alone defines the physical scale
+                return self.comoving_distance(z) / (1.0 + z) / (1.0 + 0.1 * z)
 
         return Toy()
     return tag
@@ -74,7 +78,7 @@ def distances(tag):
         c = cosmo_obj("custom")
         return c.comoving_distance, c.angular_diameter_distance
     name = "Planck15" if tag in (None, "None") else tag.replace("inst:", "")
-    cosmo = getattr(ac, name)
+    cosmo = cosmo_obj("curved") if tag == "curved" else getattr(ac, name)
     return (lambda z: np.asarray(cosmo.comoving_distance(z).value, dtype=float),
             lambda z: np.asarray(cosmo.angular_diameter_distance(z).value, dtype=float))
 
@@ -152,6 +156,8 @@ def cases(tier, seed):
         ("rweight", dict(rweight=-0.5)), ("rweight", dict(rweight=None)),
         ("resolution", dict(resolution=7)), ("resolution", dict(resolution=None)),
         ("zmin", dict(zmin=0.2)), ("zmax", dict(zmax=1.5)), ("num_bins", dict(num_bins=5)),
+        ("zmin", dict(zmin=0.0)), ("zmax", dict(zmax=0.0)), ("num_bins", dict(num_bins=0)),
+        ("rweight", dict(rweight=0.0)), ("cosmology", dict(cosmology="curved")),
         ("method", dict(method="linear")), ("method", dict(method="comoving")),
         ("method", dict(method="logspace")),
         ("edges", dict(edges=[0.3, 0.4, 0.6])),
@@ -375,7 +381,7 @@ def run_modify(case):
         return [viol(f"C15/create/exception:{type(e).__name__}/{tag}",
                      f"valid parameters rejected: {yawx.exc_name(e)}", base)], True
     before = describe(conf)
-    before_dict = conf.to_dict() if base.get("cosmology") != "custom" else None
+    before_dict = conf.to_dict() if base.get("cosmology") not in ("custom", "curved") else None
     v = []
     # signature: binning-related parameter names only (they select the code path), others as "other"
     sigmod = "+".join(sorted({n if n in ("zmin", "zmax", "num_bins", "method", "edges", "closed", "cosmology")
